@@ -141,7 +141,7 @@ void Engine<Policy>::do_update() {
             std::uniform_int_distribution<type_id> uniform_dist;
             std::ostringstream os;
             os << "#rng";
-            for (std::size_t i = 0; i < 4 * budget; ++i) {
+            for (std::size_t i = 0; i < 8 * budget; ++i) {  // more than any number of passes the search makes
                 os << " " << uniform_dist(rnd);
             }
             os << "\n";
